@@ -100,4 +100,20 @@ func main() {
 		reg.SelectVersions()
 		show(reg, dir, id)
 	}()
+
+	fmt.Println("5) dev mode, online, auto-download index; versions 0.0.0-beta, 0.0.0 (available), 1.0.0: the dev version is not selected:")
+	func() {
+		reg, dir := newReg(true)
+		defer os.RemoveAll(dir)
+		reg.Online = true
+		idx := &updater.Index{Path: "stable.json", AutoDownload: true}
+		addWithFile(reg, dir, id, "0.0.0")
+		for _, v := range []string{"0.0.0-beta", "1.0.0"} {
+			if err := reg.AddResource(id, v, idx, false, false, false); err != nil {
+				panic(err)
+			}
+		}
+		reg.SelectVersions()
+		show(reg, dir, id)
+	}()
 }
